@@ -17,4 +17,45 @@ def regen_all(force=False):
         if rc != 0:
             raise RuntimeError("dumper failed: %s rc=%d %s" % (cmd, rc, err[-500:]))
         core.write_if_changed(os.path.join(core.COQ, "Gen", fn), out)
+    try:   # C20 (contrib/seekable_format); a failure here must not take the other properties down
+        regen_seek()
+    except Exception as e:
+        core.log("Gen_Seek.v not regenerated: %r" % (e,))
+    try:   # C18 (dictionary training constants)
+        regen_train()
+    except Exception as e:
+        core.log("Gen_Train.v not regenerated: %r" % (e,))
+    try:   # C14 (memory budgets): sizes / constants / level table in N
+        regen_c14()
+    except Exception as e:
+        core.log("Gen_C14.v not regenerated: %r" % (e,))
     _done = True
+
+
+def regen_seek():
+    """C20: constants of contrib/seekable_format -> coq/Gen/Gen_Seek.v (raises when the dumper does not build/run)."""
+    sk = core.build_harness("c20_dump", ["c20_dump.c"], variant="o1", extra_flags=["-w"],
+                            extra_inc=[os.path.join(core.REPO, "contrib", "seekable_format")])
+    rc, out, err = core.sh([sk], timeout=60)
+    if rc != 0:
+        raise RuntimeError("dumper failed: %s rc=%d %s" % (sk, rc, err[-500:]))
+    core.write_if_changed(os.path.join(core.COQ, "Gen", "Gen_Seek.v"), out)
+
+
+def regen_train():
+    """C18: constants of lib/dictBuilder -> coq/Gen/Gen_Train.v (raises when the dumper does not build/run)."""
+    t = core.build_harness("c18_dump", ["c18_dump.c", "c18_dump_cover.c"], variant="o1", extra_flags=["-w"],
+                           lib_exclude=["cover.c", "fastcover.c", "zdict.c"], libs=["-lpthread", "-lm"])
+    rc, out, err = core.sh([t], timeout=60)
+    if rc != 0:
+        raise RuntimeError("dumper failed: %s rc=%d %s" % (t, rc, err[-500:]))
+    core.write_if_changed(os.path.join(core.COQ, "Gen", "Gen_Train.v"), out)
+
+
+def regen_c14():
+    """C14: sizeofs, cwksp/estimate/decoder constants and the level table -> coq/Gen/Gen_C14.v."""
+    ex = core.build_harness("c14_dump", ["c14_dump.c"], variant="o1", extra_flags=["-w"])
+    rc, out, err = core.sh([ex], timeout=60)
+    if rc != 0:
+        raise RuntimeError("dumper failed: %s rc=%d %s" % (ex, rc, err[-500:]))
+    core.write_if_changed(os.path.join(core.COQ, "Gen", "Gen_C14.v"), out)
